@@ -759,6 +759,129 @@ func runC09(c *fw.Ctx) {
 		c09Case(c, r, i, true)
 	})
 	c.Cases("scenarios", c.N(2000, 800000), false, func(i int, r *rng.R) { c09Case(c, r, -1, false) })
+	c.Cases("paging", c.N(60, 6000), false, func(i int, r *rng.R) { c09Paging(c, r) })
+}
+
+// c09Paging: a long run of small derived results (pages cut by SubList, Concat results, clones, filtered copies) taken
+// from a few receivers, each written to right after it was made. Every result made so far (a window of the last ten)
+// and every receiver must stay what it was when the next one is made and when a neighbour grows: whatever storage the
+// library hands out to results belongs to one result.
+func c09Paging(c *fw.Ctx, r *rng.R) {
+	var trace []string
+	in := func() string {
+		t := trace
+		if len(t) > 60 {
+			t = t[len(t)-60:]
+		}
+		return "paging (the last steps):\n  " + strings.Join(t, "\n  ")
+	}
+	guard(c, in, func() {
+		type page struct {
+			name string
+			l    at.List
+			last any
+		}
+		var live []*page
+		mk := func(name string, l at.List) *page {
+			p := &page{name, l, top(l)}
+			live = append(live, p)
+			return p
+		}
+		nested := at.NewList("n")
+		var recvs []*page
+		for k := r.Range(1, 3); k > 0; k-- {
+			n := r.Range(3, 24)
+			vals := make([]any, n)
+			for j := range vals {
+				vals[j] = j
+				if r.Chance(1, 8) {
+					vals[j] = nested
+				}
+			}
+			l, how := buildReceiverList(r, vals)
+			p := mk(fmt.Sprintf("recv%d", k), l)
+			recvs = append(recvs, p)
+			trace = append(trace, fmt.Sprintf("%s = %s via %s", p.name, spec.Trunc(l.String(), 120), how))
+		}
+		check := func(except *page, after string) bool {
+			for _, p := range live {
+				if p == except {
+					continue
+				}
+				if now := top(p.l); !sameTop(p.last, now) {
+					c.Violate("storage-shared-between-parties", in(), fmt.Sprintf("%s unchanged by %s: %s", p.name, after, showTop(p.last)), showTop(now))
+					return false
+				}
+			}
+			return true
+		}
+		rounds := r.Range(80, 160)
+		for round := 0; round < rounds; round++ {
+			src := live[r.Intn(len(live))]
+			if r.Bool() {
+				src = recvs[r.Intn(len(recvs))]
+			}
+			n := src.l.Count()
+			var res at.List
+			var desc string
+			drive.Protect(func() {
+				switch op := r.Intn(8); {
+				case op <= 3 && n > 0:
+					a := r.Intn(n)
+					b := a + r.Range(1, 16)
+					if b > n {
+						b = n
+					}
+					res, desc = src.l.SubList(a, b), fmt.Sprintf("%s.SubList(%d, %d)", src.name, a, b)
+				case op == 4:
+					res, desc = src.l.Concat(at.NewList(round)), src.name+".Concat([round])"
+				case op == 5:
+					res, desc = at.NewList(round).Concat(src.l.SubList(0, -n/2)), "[round].Concat("+src.name+".SubList(0, -n/2))"
+				case op == 6:
+					res, desc = src.l.Clone(), src.name+".Clone()"
+				default:
+					res, desc = src.l.FilterInts(func(x int) bool { return x%2 == 0 }), src.name+".FilterInts(even)"
+				}
+			})
+			if res == nil {
+				continue
+			}
+			name := fmt.Sprintf("p%d", round)
+			trace = append(trace, name+" = "+desc)
+			c.Count("pages_taken")
+			if !check(nil, "taking "+name+" = "+desc) {
+				return
+			}
+			p := mk(name, res)
+			// write to the new result at once
+			var wdesc string
+			drive.Protect(func() {
+				switch r.Intn(5) {
+				case 0, 1:
+					res.Add("+" + name)
+					wdesc = "Add"
+				case 2:
+					res.Insert(0, "+"+name)
+					wdesc = "Insert(0)"
+				case 3:
+					res.SetTF(fmt.Sprintf("#%d", res.Count()+1), "+"+name)
+					wdesc = "SetTF behind the end"
+				default:
+					res.Add("+"+name, "++"+name).Pop()
+					wdesc = "Add x2, Pop"
+				}
+			})
+			p.last = top(res)
+			trace = append(trace, name+"."+wdesc)
+			if !check(p, name+"."+wdesc) {
+				return
+			}
+			if len(live) > len(recvs)+10 {
+				live = append(live[:len(recvs):len(recvs)], live[len(live)-10:]...)
+			}
+		}
+		c.Distinct(in())
+	})
 }
 
 func c09Case(c *fw.Ctx, r *rng.R, forceOp int, pinned bool) {
@@ -823,7 +946,20 @@ func c09Case(c *fw.Ctx, r *rng.R, forceOp int, pinned bool) {
 				// purity: receiver, argument and earlier results unchanged by the call
 				s.verify(nil, "deriving-op-modifies-input:"+strings.SplitN(name, "(", 2)[0], "the call "+name)
 				if res != nil {
-					s.add(rn, res)
+					rp := s.add(rn, res)
+					if d == 0 && !rp.frozen && r.Chance(1, 2) {
+						// the result is written to before the next derivation is made (mutate - derive - mutate - derive): a result
+						// that grows into room it does not own is overwritten by whatever is handed out next
+						if desc := mutateParty(r, rp); desc != "" {
+							s.trace = append(s.trace, rp.name+"."+desc)
+							c.Count("mutations")
+							changed := rp
+							if strings.HasSuffix(desc, "rejected]") {
+								changed = nil
+							}
+							s.verify(changed, "storage-shared-between-parties", rp.name+"."+desc)
+						}
+					}
 				}
 			}
 			_ = pr
